@@ -712,3 +712,81 @@ inst!(stats_dn8_zst_k2, unwind 4, ob_stats, LogAlloc, SDn8, 2, 64, 1);
 inst!(stats_up1_u64_k2, unwind 4, ob_stats, LogAlloc<u64>, SUp1, 2, 64, 0);
 inst!(stats_dn1_align32_k2, unwind 4, ob_stats, LogAlloc<Align32>, SDn1, 2, 64, 1);
 
+
+// ---- instantiation matrix for the cheap header-only contracts (every MIN_ALIGN x direction, stateful / over-aligned
+//      base allocators, DEALLOCATES=false) and over-granting base allocators
+macro_rules! matrix {
+    ($($name:ident: $f:ident, $A:ty, $ma:literal, $up:literal, $de:literal, ($($arg:expr),*));*) => {
+        $(
+            #[kani::proof]
+            #[kani::unwind(4)]
+            pub(crate) fn $name() {
+                $f::<$A, St<$ma, $up, true, $de, true>>($($arg),*);
+            }
+        )*
+    };
+}
+matrix!(
+    chunk_alloc_m_up2: ob_chunk_alloc, LogAlloc, 2, true, true, (1, 128, 200, true);
+    chunk_alloc_m_up4: ob_chunk_alloc, LogAlloc<u64>, 4, true, true, (1, 128, 200, true);
+    chunk_alloc_m_up16: ob_chunk_alloc, LogAlloc, 16, true, true, (2, 64, 200, true);
+    chunk_alloc_m_dn2: ob_chunk_alloc, LogAlloc, 2, false, true, (1, 128, 200, true);
+    chunk_alloc_m_dn4: ob_chunk_alloc, LogAlloc<Align32>, 4, false, true, (1, 128, 200, true);
+    chunk_alloc_m_dn8: ob_chunk_alloc, LogAlloc<u64>, 8, false, true, (2, 64, 200, true);
+    deallocate_m_up2: ob_deallocate, LogAlloc, 2, true, true, (2, 64);
+    deallocate_m_up4: ob_deallocate, LogAlloc<u64>, 4, true, true, (2, 64);
+    deallocate_m_up16: ob_deallocate, LogAlloc, 16, true, true, (2, 64);
+    deallocate_m_dn1: ob_deallocate, LogAlloc, 1, false, true, (2, 64);
+    deallocate_m_dn2: ob_deallocate, LogAlloc<Align32>, 2, false, true, (1, 128);
+    deallocate_m_dn4: ob_deallocate, LogAlloc, 4, false, true, (2, 64);
+    deallocate_m_dn16: ob_deallocate, LogAlloc, 16, false, true, (2, 64);
+    deallocate_m_dn8_nodealloc: ob_deallocate, LogAlloc, 8, false, false, (2, 64);
+    chunk_prepare_m_up4: ob_chunk_prepare, LogAlloc, 4, true, true, (1, 256, 200);
+    chunk_prepare_m_up16: ob_chunk_prepare, LogAlloc, 16, true, true, (1, 256, 200);
+    chunk_prepare_m_dn1: ob_chunk_prepare, LogAlloc, 1, false, true, (1, 256, 200);
+    chunk_prepare_m_dn16: ob_chunk_prepare, LogAlloc<Align32>, 16, false, true, (1, 256, 200);
+    reset_to_m_up16: ob_reset_to, LogAlloc, 16, true, true, (2, 64);
+    reset_to_m_dn2: ob_reset_to, LogAlloc<Align32>, 2, false, true, (2, 64)
+);
+
+/// Over-granting base allocator (grants 24 bytes more than requested: not a multiple of 16, so `align_size`
+/// has to round down): constructors still establish wf with the grant-derived geometry, alloc contract holds,
+/// every chunk is released with a size between requested and granted.
+pub(crate) fn ob_overgrant<A, S>(k: usize, hint: usize, over: usize)
+where
+    A: crate::BaseAllocator<S::GuaranteedAllocated> + Default,
+    S: BumpAllocatorSettings,
+{
+    let mut a = Arena::<A, S>::build_over(k, hint, over);
+    kani::assert(a.wf(), "C10.overgrant.constructors_establish_wf");
+    let mut i = 0;
+    while i < k {
+        let g = unsafe { GRANTS[i] };
+        let geo = a.geo(i);
+        kani::assert(g.granted == g.req_size + over && geo.size >= g.req_size && geo.size <= g.granted, "C05.overgrant.chunk_size_between_requested_and_granted");
+        kani::assert(geo.size > g.req_size || over < 16, "C12.overgrant.extra_memory_is_used");
+        i += 1;
+    }
+    a.havoc();
+    let ci = a.cur;
+    let layout = any_layout(100, 5);
+    let r = a.bump.chunk.get().alloc(CustomLayout(layout));
+    if let Some(p) = r {
+        let addr = p.as_ptr() as usize;
+        let g = a.geo(ci);
+        kani::assert(al(addr, layout.align()) && addr >= g.content_start && addr + layout.size() <= g.content_end, "C01.overgrant.alloc_inside_content");
+    }
+    kani::assert(a.wf(), "C10.overgrant.wf");
+    let st = a.bump.stats();
+    kani::assert(st.count() == k && st.allocated() == a.allocated_bytes(), "C10.overgrant.stats");
+    unsafe { a.bump.manually_drop() };
+    kani::assert(live_grants() == 0, "C05.overgrant.every_chunk_returned_once_with_fitting_size");
+    kani::cover!(r.is_some(), "alloc-ok");
+}
+
+matrix!(
+    overgrant_up1: ob_overgrant, LogAlloc, 1, true, true, (2, 64, 24);
+    overgrant_dn8: ob_overgrant, LogAlloc<u64>, 8, false, true, (2, 64, 24);
+    overgrant_dn1_align32: ob_overgrant, LogAlloc<Align32>, 1, false, true, (2, 64, 40);
+    overgrant_up16_k3: ob_overgrant, LogAlloc, 16, true, true, (3, 64, 8)
+);
